@@ -648,8 +648,63 @@ def gen_vertices(parts):
 
 
 # ------------------------------------------------------------------------------------------------ base.py
+def stage_expr(rel, stmts_, st="st"):
+    """the statements of FrameField.run() as a state transformer on (initialized, smoothed, executed stages)"""
+    if not stmts_:
+        return st
+    x, rest = stmts_[0], stmts_[1:]
+    txt = ast.unparse(x)
+    if re.match(r"^self\.log\(.*\)$", txt, re.S):
+        return stage_expr(rel, rest, st)
+    if txt == "self.initialize()":
+        cur = "(st_push SInit %s)" % st
+    elif txt == "self.optimize()":
+        cur = "(st_push SOpt %s)" % st
+    elif txt in ("self.initialized = True", "self.initialized = False"):
+        cur = "(st_seti %s %s)" % (txt.endswith("True") and "true" or "false", st)
+    elif txt in ("self.smoothed = True", "self.smoothed = False"):
+        cur = "(st_sets %s %s)" % (txt.endswith("True") and "true" or "false", st)
+    elif isinstance(x, ast.If) and not x.orelse and ast.unparse(x.test) in ("not self.initialized", "not self.smoothed", "self.initialized", "self.smoothed"):
+        t = ast.unparse(x.test)
+        cond = {"not self.initialized": "negb (st_i %s)", "not self.smoothed": "negb (st_s %s)",
+                "self.initialized": "st_i %s", "self.smoothed": "st_s %s"}[t] % st
+        cur = "(if %s then %s else %s)" % (cond, stage_expr(rel, x.body, st), st)
+    else:
+        T.fail(rel, x, "unsupported statement in FrameField.run")
+    if not rest:
+        return cur
+    return "(let st := %s in %s)" % (cur, stage_expr(rel, rest, "st"))
+
+
+def sets_flag(rel, tree, qual, flag):
+    fn = T.find_def(tree, qual, rel)
+    return any(ast.unparse(x) == "self.%s = True" % flag for x in stmts(fn))
+
+
 def gen_base(parts):
     src, tree = T.load(BASE)
+    rn = T.find_def(tree, "FrameField.run", BASE)
+    parts.append(("base.FrameField.run", T.sha(src, rn)))
+    if [a.arg for a in rn.args.args] != ["self"]:
+        T.fail(BASE, rn, "unexpected signature of run")
+    run_txt = stage_expr(BASE, stmts(rn))
+    wsrc, wtree = T.load("mouette/processing/worker.py")
+    cl = T.find_def(wtree, "Worker.__call__", "mouette/processing/worker.py")
+    if [ast.unparse(x) for x in stmts(cl)] != ["self.run(*args, **kwargs)", "return self"]:
+        T.fail("mouette/processing/worker.py", cl, "__call__ is not `self.run(*args, **kwargs); return self`")
+    parts.append(("worker.Worker.__call__", T.sha(wsrc, cl)))
+    fsrc, ftree = T.load(FACES)
+    vsrc, vtree = T.load(VERTS)
+    flags = {
+        "initf_sets_initialized": sets_flag(FACES, ftree, "FrameField2DFaces.initialize", "initialized"),
+        "initv_sets_initialized": sets_flag(VERTS, vtree, "FrameField2DVertices.initialize", "initialized"),
+        "optf_sets_smoothed": sets_flag(FACES, ftree, "FrameField2DFaces.optimize", "smoothed"),
+        "optv_sets_smoothed": sets_flag(VERTS, vtree, "FrameField2DVertices.optimize", "smoothed"),
+    }
+    run_defs = ["(* ---- base.py: FrameField.run (which stage is called under which flag); worker.py: __call__ = run *)",
+                "Definition run_step (st : ffstate) : ffstate := %s." % run_txt] + \
+               ["Definition %s : bool := %s." % (k, "true" if v else "false") for k, v in sorted(flags.items())]
+    RUN_DEFS.append("\n".join(run_defs))
     fn = T.find_def(tree, "FrameField.normalize", BASE)
     parts.append(("base.FrameField.normalize", T.sha(src, fn)))
     body = stmts(fn)
@@ -668,7 +723,7 @@ def gen_base(parts):
         T.fail(BASE, st, "expected `if abs(self.var[i]) > thr: self.var[i] /= abs(self.var[i])`")
     tn, op = cmp_guard(BASE, st.test, "abs(self.var[%s])" % i)
     thr = const_fraction(BASE, tn)
-    return "\n".join([
+    return RUN_DEFS.pop() + "\n\n" + "\n".join([
         "(* ---- base.py: FrameField.normalize *)",
         "Definition norm_thr : Q := %s." % qlit(thr),
         "Definition norm_guard (a : T) : bool := %s." % guard_text(op, "norm_thr", "a"),
@@ -846,6 +901,8 @@ def gen_laplacians(parts):
             "  [%s]." % ";\n   ".join(diag + off_flat)]
     return "\n".join(out)
 
+
+RUN_DEFS = []
 
 PRELUDE = """From Coq Require Import ZArith List Bool QArith.
 Import ListNotations.
